@@ -1,335 +1,9 @@
 /-
-  Model of math.h: sqrt (both back-ends), hypot, sin, cos, tan, atan, atan2, asin, acos,
-  the `*_angle` helpers; and of detail/common.h: `mul_ div_ fix_ highest_pwr4_clz set_sign`.
-  Line by line after the source; every signed `+ - * / % << >>` goes through CSem so that
-  overflow, bad shifts and division traps are values of the model.
+  Model of math.h (sqrt, hypot, sin, cos, tan, atan, atan2, asin, acos, *_angle): re-exports the parts.
 -/
-import FixedMath.Model.Conv
-
-namespace FixedMath
-open Gen
-
-/-- `detail::mul_<p>` : `(x * y) >> p` -/
-@[inline] def mul_ (p : Int) (x y : Int) : M Int := do
-  let t ← chk64 (x * y)
-  shr64 t p
-/-- `detail::div_<p>` : `(x << p) / y` -/
-@[inline] def div_ (p : Int) (x y : Int) : M Int := do
-  let t ← shl64 x p
-  div64 t y
-/-- `detail::fix_<p>` : `x << p` -/
-@[inline] def fix_ (p : Int) (x : Int) : M Int := shl64 x p
-/-- `detail::set_sign` -/
-@[inline] def setSign (sign : Bool) (r : Int) : M Int := if !sign then pure r else chk64 (-r)
-
-/-- `detail::highest_pwr4_clz` (argument is `uint64_t`) -/
-def highestPwr4Clz (v : Int) : M Int :=
-  if v ≠ 0 then
-    let c := 64 - clz64 v
-    let c := if c % 2 = 0 then c - 1 else c
-    shl64 1 (c - 1)
-  else pure 0
-
-/-- the `while( pwr4 != 0 )` loop of `sqrt_abacus` on `uint64_t` state `(rem, result, pwr4)` -/
-def abacusLoop : Nat → Int → Int → Int → M Int
-  | 0, _, _, _ => throw .fuel
-  | fuel + 1, rem, res, p =>
-    if p ≠ 0 then
-      if rem ≥ (res + p) % two64 then
-        abacusLoop fuel ((rem - (res + p) % two64) % two64) (((res + (p * 2) % two64) % two64) / 2) (p / 4)
-      else
-        abacusLoop fuel rem (res / 2) (p / 4)
-    else pure res
-
-/-- `detail::sqrt_abacus` -/
-def sqrtAbacus (v : Int) : M Int :=
-  if v < 0 ∨ v ≥ 281474976710656 then pure NaNp
-  else do
-    let rem := (toU64 v * 65536) % two64
-    let p ← highestPwr4Clz rem
-    let r ← abacusLoop 40 rem 0 (toU64 p)
-    pure (toI64 r)
-
-inductive SqrtBE where
-  | abacus | std
-  deriving DecidableEq, Repr, Inhabited
-
-/-- `sqrt` with the selected back-end -/
-def sqrt (be : SqrtBE) (v : Int) : M Int :=
-  match be with
-  | .abacus => sqrtAbacus v
-  | .std => sqrtStd v
-
-/-- `hypot` -/
-def hypot (be : SqrtBE) (lh rh : Int) : M Int := do
-  let lh ← if lh < 0 then neg lh else pure lh
-  let rh ← if rh < 0 then neg rh else pure rh
-  let uhi0 := toU64 lh
-  let ulo0 := toU64 rh
-  let uhi := if uhi0 < ulo0 then ulo0 else uhi0
-  let ulo := if uhi0 < ulo0 then uhi0 else ulo0
-  if uhi = 0 then pure 0
-  else if uhi ≥ 1073741824 then do
-    let rshbits := 48 - clz64 uhi
-    let uhi ← shrU64 uhi rshbits
-    let ulo ← shrU64 ulo rshbits
-    let q ← sqrt be (toI64 (((uhi * uhi + ulo * ulo) % two64) / 65536))
-    let res ← shlU64 (toU64 q) rshbits
-    if res ≤ lim_max then pure (toI64 res) else pure NaNp
-  else if ulo < 65536 then do
-    let clz := clz64 uhi
-    let lshbits := min ((max (clz - 30) 0) / 2) (clz - 33)
-    let uhi ← shlU64 uhi lshbits
-    let ulo ← shlU64 ulo lshbits
-    let q ← sqrt be (toI64 (((uhi * uhi + ulo * ulo) % two64) / 65536))
-    shr64 q lshbits
-  else
-    sqrt be (toI64 (((uhi * uhi + ulo * ulo) % two64) / 65536))
-
-/-- `phi/2` as the library computes it (`fixed_t / int`) -/
-def phi2M : M Int := divScalar .i32 phi 2
-/-- `2*phi` (`int * fixed_t`) -/
-def twoPhiM : M Int := mulScalar .i32 phi 2
-
-/-- `detail::sin_range` -/
-def sinRange (rad : Int) : M Int := do
-  let phi2 ← phi2M
-  let _2phi ← twoPhiM
-  let nphi2 ← neg phi2
-  let hi ← add phi phi2
-  if rad < nphi2 ∨ rad > hi then do
-    let t ← mod64 rad _2phi
-    let s ← chk64 (phi2 + t)
-    let u ← mod64 s _2phi
-    let r ← chk64 (u - phi2)
-    if r < nphi2 then chk64 (r + _2phi) else pure r
-  else pure rad
-
-/-- the polynomial part of `sin` for a reduced argument -/
-def sinPoly (x : Int) : M Int := do
-  let x2 ← mul_ 16 x x
-  let c42 ← shl64 42 16
-  let c105 ← shl64 105 35
-  let c315 ← shl64 315 16
-  let a ← chk64 (c42 - x2)
-  let b ← chk64 (x2 * a)
-  let c ← chk64 (c105 - b)
-  let d ← mul_ 36 x2 c
-  let e ← chk64 (c315 - d)
-  let f ← mul_ 16 x e
-  div64 f 315
-
-/-- `sin` -/
-def sin (rad : Int) : M Int := do
-  let phi2 ← phi2M
-  let rad ← sinRange rad
-  let rad ← if rad > phi2 then sub phi rad else pure rad
-  sinPoly rad
-
-/-- `cos` : `sin( fixpidiv2 + rad )` -/
-def cos (rad : Int) : M Int := do
-  let a ← add fixpidiv2 rad
-  sin a
-
-/-- `detail::tan_<p>` -/
-def tan_ (p : Int) (x : Int) : M Int := do
-  let x2 ← mul_ p x x
-  let k21844 ← fix_ p 21844
-  let t0 ← chk64 (929569 * x2)
-  let t0 ← div64 t0 105
-  let y0 ← chk64 (k21844 + t0)
-  let k1382 ← fix_ p 1382
-  let t1 ← mul_ p x2 y0
-  let t1 ← div64 t1 39
-  let y1 ← chk64 (k1382 + t1)
-  let k62 ← fix_ p 62
-  let t2 ← mul_ p x2 y1
-  let t2 ← div64 t2 55
-  let y2 ← chk64 (k62 + t2)
-  let k17 ← fix_ p 17
-  let t3 ← mul_ p x2 y2
-  let t3 ← div64 t3 9
-  let y3 ← chk64 (k17 + t3)
-  let k2 ← fix_ p 2
-  let t4 ← mul_ p x2 y3
-  let t4 ← div64 t4 21
-  let y4 ← chk64 (k2 + t4)
-  let k1 ← fix_ p 1
-  let t5 ← mul_ p x2 y4
-  let t5 ← div64 t5 5
-  let y5 ← chk64 (k1 + t5)
-  let t6 ← mul_ p x2 y5
-  let t6 ← div64 t6 3
-  let y6 ← chk64 (k1 + t6)
-  mul_ p x y6
-
-/-- `detail::tan_range` -/
-def tanRange (x : Int) : M Int := do
-  let phi2 ← phi2M
-  if x > phi2 then mod64 x phi else pure x
-
-/-- `tan` (after the repair: second quadrant reflected) -/
-def tan (rad : Int) : M Int := do
-  let one_ ← fix_ 16 1
-  let x0 ← if rad < 0 then chk64 (-rad) else pure rad
-  let sign0 : Bool := decide (rad < 0)
-  let x1 ← tanRange x0
-  if x1 ≠ fixpidiv2 then do
-    let x ← if x1 > fixpidiv2 then chk64 (phi - x1) else pure x1
-    let sign : Bool := if x1 > fixpidiv2 then !sign0 else sign0
-    let res ←
-      if x ≤ fixpidiv4 then do
-        let a ← shl64 x 4
-        let t ← tan_ 20 a
-        shr64 t 4
-      else do
-        let a ← shl64 fixpidiv2 4
-        let b ← shl64 x 4
-        let c ← chk64 (a - b)
-        let t ← tan_ 20 c
-        let t ← shr64 t 4
-        div_ 16 one_ t
-    if sign then chk64 (-res) else pure res
-  else pure NaNp
-
-/-- `detail::atan<p>` (the polynomial kernel) -/
-def atanKernel (p : Int) (x : Int) : M Int := do
-  let t ← mul_ p x x
-  let f11 ← fix_ p 11
-  let c11o9 ← div64 f11 9
-  let c11o7 ← div64 f11 7
-  let c11o5 ← div64 f11 5
-  let c11o3 ← div64 f11 3
-  let y ← chk64 (c11o9 - t)
-  let m ← mul_ p t y
-  let n7 ← chk64 (-c11o7)
-  let y ← chk64 (n7 + m)
-  let m ← mul_ p t y
-  let y ← chk64 (c11o5 + m)
-  let m ← mul_ p t y
-  let n3 ← chk64 (-c11o3)
-  let y ← chk64 (n3 + m)
-  let m ← mul_ p t y
-  let y ← chk64 (f11 + m)
-  let m ← mul_ p x y
-  div64 m 11
-
-/-- `detail::atan_sum<p, atanc, c>` -/
-def atanSum (p : Int) (atanc c : Int) (x : Int) : M Int := do
-  let one_ ← fix_ p 1
-  let num ← chk64 (x - c)
-  let xc ← mul_ p x c
-  let den ← chk64 (one_ + xc)
-  let z ← div_ p num den
-  let a ← atanKernel p z
-  chk64 (atanc + a)
-
-/-- `atan` (after the repair: argument clamped to 2^45 raw) -/
-def atan (value : Int) : M Int := do
-  let x ← if value < 0 then chk64 (-value) else pure value
-  let sign : Bool := decide (value < 0)
-  let x := if x > 35184372088832 then 35184372088832 else x
-  let result ←
-    if x < 28672 then atanKernel 16 x
-    else if x < 45056 then atanSum 16 27028 28672 x
-    else if x < 77824 then atanSum 16 39472 45056 x
-    else if x < 159744 then atanSum 16 57076 77824 x
-    else atanSum 16 77429 159744 x
-  if !sign then pure result else chk64 (-result)
-
-/-- `atan2` -/
-def atan2 (y x : Int) : M Int :=
-  if x > 0 then do
-    let q ← div y x
-    atan q
-  else if x < 0 then do
-    let q ← div y x
-    let a ← atan q
-    if y ≥ 0 then add a phi else sub a phi
-  else
-    if y > 0 then pure fixpidiv2
-    else if y < 0 then neg fixpidiv2
-    else pure NaNp
-
-/-- `detail::asin<p>` (the polynomial kernel) -/
-def asinKernel (p : Int) (x : Int) : M Int := do
-  let x2 ← mul_ p x x
-  let c35o9 ← div_ p 35 9
-  let c35o9 ← chk64 (c35o9 + 1)
-  let c5o7 ← div_ p 5 7
-  let c5o7 ← chk64 (c5o7 + 1)
-  let c3o5 ← div_ p 3 5
-  let c3o5 ← chk64 (c3o5 + 1)
-  let c1o3 ← div_ p 1 3
-  let c1 ← fix_ p 1
-  let c63o11 ← div_ p 63 11
-  let c63o11 ← chk64 (c63o11 + 1)
-  let m ← mul_ (p + 1) x2 c63o11
-  let y6 ← chk64 (c35o9 + m)
-  let m ← mul_ (p + 3) x2 y6
-  let y7 ← chk64 (c5o7 + m)
-  let m ← mul_ (p + 1) x2 y7
-  let y8 ← chk64 (c3o5 + m)
-  let m ← mul_ (p + 2) x2 y8
-  let y9 ← chk64 (c1o3 + m)
-  let m ← mul_ (p + 1) x2 y9
-  let y10 ← chk64 (c1 + m)
-  mul_ p x y10
-
-/-- `asin` -/
-def asin (be : SqrtBE) (x : Int) : M Int := do
-  let x_ ← if x < 0 then chk64 (-x) else pure x
-  let sign : Bool := decide (x < 0)
-  let one ← toFixed .i64 1          -- `(1_fix).v`
-  if x_ ≤ one then
-    if x_ ≤ asin_split then do
-      let a ← shl64 x_ 4
-      let r ← asinKernel 20 a
-      let r ← shr64 r 4
-      setSign sign r
-    else do
-      let d ← chk64 (one - x_)
-      let d ← shr64 d 1
-      let sqr ← sqrt be d
-      let a ← shl64 sqr 4
-      let r ← asinKernel 20 a
-      let r ← shr64 r 3
-      let r ← chk64 (fixpidiv2 - r)
-      setSign sign r
-  else pure NaNp
-
-/-- `acos` -/
-def acos (be : SqrtBE) (x : Int) : M Int := do
-  let phi2 ← phi2M
-  let one ← toFixed .i64 1
-  let mone ← neg one
-  if x ≥ mone ∧ x ≤ one then do
-    let a ← asin be x
-    chk64 (phi2 - a)
-  else pure NaNp
-
-/-- `angle * phi / 180` for an integral `angle` of type `t` -/
-def angleArgInt (t : IT) (angle : Int) : M Int := do
-  let m ← mulScalar t phi angle
-  divScalar .i32 m 180
-/-- the same for a `fixed_t` angle -/
-def angleArgFixed (angle : Int) : M Int := do
-  let m ← mul angle phi
-  divScalar .i32 m 180
-/-- the same for a `float` angle -/
-def angleArgFloat (angle : FP) : M Int := do
-  let f ← fpToFixed b32 angle
-  let m ← mul f phi
-  divScalar .i32 m 180
-
-def sinAngleInt (t : IT) (a : Int) : M Int := do let r ← angleArgInt t a; sin r
-def cosAngleInt (t : IT) (a : Int) : M Int := do let r ← angleArgInt t a; cos r
-def tanAngleInt (t : IT) (a : Int) : M Int := do let r ← angleArgInt t a; tan r
-def sinAngleFixed (a : Int) : M Int := do let r ← angleArgFixed a; sin r
-def cosAngleFixed (a : Int) : M Int := do let r ← angleArgFixed a; cos r
-def tanAngleFixed (a : Int) : M Int := do let r ← angleArgFixed a; tan r
-def sinAngleFloat (a : FP) : M Int := do let r ← angleArgFloat a; sin r
-def cosAngleFloat (a : FP) : M Int := do let r ← angleArgFloat a; cos r
-def tanAngleFloat (a : FP) : M Int := do let r ← angleArgFloat a; tan r
-
-end FixedMath
+import FixedMath.Model.Sqrt
+import FixedMath.Model.Sin
+import FixedMath.Model.Tan
+import FixedMath.Model.Atan
+import FixedMath.Model.Asin
+import FixedMath.Model.Angle
